@@ -9,7 +9,7 @@ namespace primitiv {
 namespace devices {
 
 std::shared_ptr<void> Eigen::new_handle(const Shape &shape, std::size_t * const allocated_size) {
-  const std::uint32_t mem_size = sizeof(float) * shape.size();
+  const std::size_t mem_size = sizeof(float) * static_cast<std::size_t>(shape.size());
   void *data = std::malloc(mem_size);
   if (!data) {
     PRIMITIV_THROW_ERROR("Memory allocation failed. Requested size: " << mem_size);
